@@ -189,6 +189,17 @@ def mk_fns(log):
     def pair(x, y=7):
         return [x, y]
 
+    class Tagged(codec.Obj):
+        """a specifier CLASS (it defines glomit): used as a spec the class object is an ordinary callable"""
+        def __init__(self, *a, **kw):
+            log.append(('Tagged', a, kw))
+            if len(a) != 1 or kw:
+                raise TypeError('Tagged() takes exactly one argument')
+            self.x = a[0]
+
+        def glomit(self, target, scope):
+            return self.x
+
     def wrap(impl):
         name = impl.__name__
 
@@ -197,9 +208,9 @@ def mk_fns(log):
             return impl(*a, **kw)
         f.__name__ = name
         return f
-    return {f.__name__: wrap(f) for f in (ident, inc, size, is_none, is_int, ret_None, ret_SKIP, ret_STOP,
+    return dict(Tagged=Tagged, **{f.__name__: wrap(f) for f in (ident, inc, size, is_none, is_int, ret_None, ret_SKIP, ret_STOP,
                                           raise_KeyError, raise_ValueError, raise_GlomError, echo,
-                                          mk0, pair)}
+                                          mk0, pair)})
 
 
 # ---- abstract spec -> real glom spec ----------------------------------------------------------
@@ -523,10 +534,10 @@ def match_finding(f, case):
 FAMILIES = {
     'quick': ['q_nest', 'q_pairs', 'q_leaves', 'q_coal1', 'q_calls', 'q_modes', 'q_ref',
               'q_coaln1', 'q_coaln2', 'q_chains', 'q_inspect', 'q_scope', 'q_sets', 'q_top', 'q_refscope',
-              'q_falsy', 'q_falsyc', 'q_falsy2', 'q_hard', 'q_hardc', 'q_idx'],
+              'q_falsy', 'q_falsyc', 'q_falsy2', 'q_hard', 'q_hardc', 'q_idx', 'q_cls'],
     'thorough': ['t_nest', 't_nest5', 't_leaves', 't_coal', 't_calls', 't_callnest', 't_modes', 't_ref',
                  'q_coaln1', 'q_coaln2', 't_chains', 't_inspect', 't_scope', 't_sets', 't_top', 't_refscope',
-                 't_falsy', 't_hard', 't_hard2', 'q_falsyc', 'q_falsy2', 'q_hardc', 'q_idx'],
+                 't_falsy', 't_hard', 't_hard2', 'q_falsyc', 'q_falsy2', 'q_hardc', 'q_idx', 'q_cls'],
 }
 # wrong mechanism variants (GlomAuto env.mut) and the small universe on which TLC must report
 # the law violated
